@@ -1006,6 +1006,29 @@ fn c02_close_run(case: &mut Case, rng: &mut Rng) {
         case.ctl(&format!("q h0 tcp_write s2 {}", src_c.take(n)));
         req += n;
     }
+    if case.idx % 12 == 5 {
+        // "any write chunking": one write around and above 64 KiB, followed by a small one; the server
+        // reads it back with a large buffer
+        let big = *rng.pick(&[65535usize, 65536, 65537, 70000, 100000]);
+        case.ctl(&format!("q h0 tcp_write s2 {}", src_c.take(big)));
+        case.ctl("step");
+        case.ctl(&format!("q h0 tcp_write s2 {}", src_c.take(3)));
+        case.ctl("q h0 tcp_shutdown s2");
+        for _ in 0..lat + 2 {
+            case.ctl("step");
+        }
+        for _ in 0..(k + 4) {
+            case.ctl("q h1 tcp_read s2 200000");
+            case.ctl("step");
+        }
+        case.ctl("q h1 drop s2");
+        for _ in 0..lat + 2 {
+            case.ctl("q h0 tcp_read s2 8");
+            case.ctl("step");
+        }
+        case.ctl("mark drained");
+        return;
+    }
     let client_closes_first = rng.chance(3, 4);
     if client_closes_first {
         case.ctl("q h0 tcp_shutdown s2");
@@ -1506,6 +1529,7 @@ fn c04_cfg(rng: &mut Rng) -> CaseCfg {
         v6: rng.chance(1, 5),
         ephlo: 45000,
         ephhi: 45010,
+        tcpcap: *rng.pick(&[64usize, 64, 4, 2]),
         ..CaseCfg::default()
     }
 }
@@ -1515,8 +1539,8 @@ fn c04_cfg(rng: &mut Rng) -> CaseCfg {
 fn c04_run(case: &mut Case, rng: &mut Rng) {
     let hosts = case.cfg.hosts;
     let lat = case.cfg.maxlat_ms + 2;
-    let workload = case.idx % 4;
-    let crash_at = (case.idx / 4) % 12;
+    let workload = case.idx % 5;
+    let crash_at = (case.idx / 5) % 12;
     let mut tr = Traffic { next_id: 1 };
     let mut step_no = 0usize;
     let mut crashed = false;
@@ -1544,6 +1568,18 @@ fn c04_run(case: &mut Case, rng: &mut Rng) {
             }
             for k in 0..8u8 {
                 plan.push(vec![(1, format!("tcp_write s2 {}", hex(&[k, k + 1])))]);
+            }
+        }
+        4 => {
+            // established stream, the victim fills the peer's receive queue and the peer does not read: the
+            // FIN of the crash is parked behind a full queue; afterwards the peer drains by peek + read
+            plan.push(vec![(0, "tcp_bind s1 any:80".into())]);
+            plan.push(vec![(1, "tcp_connect s2 h0:80".into())]);
+            for _ in 0..3 {
+                plan.push(vec![(0, "tcp_accept s1 s2".into()), (1, "tcp_cpoll s2".into())]);
+            }
+            for k in 0..(case.cfg.tcpcap.min(8) as u8 + 2) {
+                plan.push(vec![(0, format!("tcp_write s2 {}", hex(&[k, 0x44])))]);
             }
         }
         2 => {
@@ -1594,6 +1630,10 @@ fn c04_run(case: &mut Case, rng: &mut Rng) {
         match workload {
             0 => case.ctl("q h1 tcp_cpoll s2"),
             1 | 2 => case.ctl("q h1 tcp_read s2 8"),
+            4 => {
+                case.ctl("q h1 tcp_peek s2 8");
+                case.ctl("q h1 tcp_read s2 8");
+            }
             _ => {
                 let id = 500 + k as u32;
                 case.ctl(&format!("q h1 udp_send s0 h0:9000 {}", hex(&[(id >> 8) as u8, id as u8])));
@@ -1640,6 +1680,12 @@ fn c04_run(case: &mut Case, rng: &mut Rng) {
         match workload {
             0 => case.ctl("q h1 tcp_cpoll s2"),
             1 | 2 => case.ctl("q h1 tcp_read s2 8"),
+            4 => {
+                case.ctl("q h1 tcp_peek s2 8");
+                case.ctl("q h1 tcp_read s2 8");
+                case.ctl("q h1 tcp_peek s2 8");
+                case.ctl("q h1 tcp_read s2 8");
+            }
             _ => {
                 case.ctl("q h1 udp_tryrecv s0 4");
                 case.ctl("q h1 udp_tryrecv s0 4");
@@ -1687,6 +1733,13 @@ fn knobs(mut c: CaseCfg, rng: &mut Rng) -> CaseCfg {
     c.fs_block = *rng.pick(&[0u64, 0, 2, 3]);
     if c.maxlat_ms == c.minlat_ms {
         c.maxlat_ms += *rng.pick(&[0u64, 5, 20]);
+    }
+    // "for all rng seeds": the boundary values too
+    match rng.below(8) {
+        0 => c.rng_seed = 0,
+        1 => c.rng_seed = 1,
+        2 => c.rng_seed = u64::MAX,
+        _ => {}
     }
     c
 }
